@@ -146,7 +146,7 @@ def algebra_cases(draw, max_taxa, max_trees):
             "order": list(draw(st.permutations(list(range(P))))),
             "ops": [draw(st.sampled_from(OPS)) for _ in range(P)], "nest": draw(st.booleans()),
             "explicit": draw(st.booleans()), "use_w": draw(st.booleans()), "master_first": draw(st.booleans()),
-            "prequery": draw(st.booleans())}
+            "prequery": draw(st.booleans()), "from_empty": draw(st.booleans())}
 
 
 def newick_of(rt, rooted_flag):
@@ -226,7 +226,14 @@ def check_algebra(ctx, case):
 
     order = [parts[q] for q in case["order"]]
     sizes = [len(members[q]) for q in case["order"]]
-    if case["nest"] and len(order) >= 3:
+    from_empty = bool(case.get("from_empty"))
+    if from_empty:
+        # the parts are only ever ARGUMENTS of a merge (a fresh empty accumulator receives them), so they must come
+        # out unchanged and can be merged a second time, in another order, into a second accumulator
+        order = [dendropy.TreeArray(**kw)] + order
+        sizes = [0] + sizes
+        ctx.cls("A:merged_into_fresh_empty_accumulator")
+    if case["nest"] and len(order) >= 3 and not from_empty:
         last = merge(order[-2], order[-1], case["ops"][-1])
         order = order[:-2] + [last]
     acc = order[0]
@@ -239,6 +246,13 @@ def check_algebra(ctx, case):
     if 0 in sizes:
         ctx.cls("A:has_empty_part")
     compare_arrays(ctx, acc, R, len(rts), tag, [key_of(rt, rooted) for rt in rts], rooted)
+    if from_empty:
+        acc2 = dendropy.TreeArray(**kw)
+        for nxt in reversed(order[1:]):
+            acc2 = merge(acc2, nxt, "update")
+        compare_arrays(ctx, acc2, R, len(rts), lambda: "SECOND merge of the same parts in reversed order; " + tag(), [key_of(rt, rooted) for rt in rts], rooted)
+        # and the first accumulator is not disturbed by the second round either
+        compare_arrays(ctx, acc, R, len(rts), lambda: "first accumulator re-checked after the second merge; " + tag(), None, rooted)
     if empties_after_nonempty or (len(nonorig) >= 2 and nonorig != sorted(nonorig)):
         ctx.nontrivial(["A", sample, case["assign"], case["routes"], case["order"], case["ops"], case["nest"], explicit])
     ctx.sample("algebra", {"trees": [rt.canon() for rt in rts], "members": members, "routes": case["routes"], "order": case["order"],
